@@ -236,6 +236,27 @@ class PosClassifier:
                 ok.append(good)
             if all(ok):
                 return SAFE, 'ranges over the grid shape'
+            # indices of the non-zero entries of an array of the grid's shape: the result of a
+            # visibility function called on this very grid (VisibilityFunction protocol: one
+            # boolean per cell), read through np.argwhere / np.nonzero / np.where
+            if all(isinstance(el, ast.Name) for el in p.elts):
+                for t, it in loops:
+                    if not (isinstance(t, ast.Tuple) and [src(x) for x in t.elts] ==
+                            [el.id for el in p.elts]):
+                        continue
+                    text = src(it)
+                    for fn_ in ('np.argwhere(', 'np.nonzero(', 'np.where('):
+                        if fn_ in text:
+                            inner = text[text.index(fn_) + len(fn_):]
+                            for an in list(getattr(self, 'array_names', ())) + \
+                                    [n_ for n_, ds in self.w.defs.items() for d_ in ds
+                                     if d_[0] == 'value' and isinstance(d_[1], ast.Call)
+                                     and src(d_[1].func) == 'visibility_function'
+                                     and d_[1].args
+                                     and is_grid_expr(d_[1].args[0], self.grid_names)]:
+                                if an and (inner.startswith(an) or f'({an})' in inner
+                                           or f'~{an}' in inner):
+                                    return SAFE, 'indices of an array of the grid shape'
             # (pos.y, pos.x) of a position
             ys = [src(e) for e in p.elts]
             if ys[0].endswith('.y') and ys[1].endswith('.x') and ys[0][:-2] == ys[1][:-2]:
